@@ -83,8 +83,8 @@ def check(ctx):
     from .c03 import resource_table
     o = ctx.ob('resource_of_its_own', 'R5',
                "every resource name gets a Resource object of its own (table keyed by name, a fresh default Resource per undeclared "
-               "name): capacity is measured per resource, not against one shared default object", floor=3)
-    ctx.guarded(o, lambda o: resource_table(ctx, o, (S,)))
+               "name): capacity is measured per resource, not against one shared default object", floor=2)
+    ctx.guarded(o, lambda o: resource_table(ctx, o, (S,), check_result=False))   # which resources the result lists is C03's clause
 
     o = ctx.ob('linked_tasks_get_project_bound', 'R8',
                "predecessors reached through a dependency link are scheduled with the project start as bound, not with the bound of "
@@ -151,6 +151,22 @@ def order(ctx, o, ps: PassShape, pt):
     for c in ps.pass_calls():
         lo = loop_of(c)
         if lo is None:
+            # the task handed to the recursion is a local: does it climb from the loop's dependency to one of its ancestors?
+            a0 = c.args[0] if c.args else None
+            climbed = None
+            if isinstance(a0, ast.Name):
+                for d_ in ps.fl.defs_of(a0.id):
+                    if d_.kind != 'assign' or d_.value is None or d_.node is None or not isinstance(d_.value, ast.Name):
+                        continue
+                    for fo_ in ps.cfg.enclosing_fors(d_.node):
+                        if isinstance(fo_.target, ast.Name) and fo_.target.id == d_.value.id and \
+                                any(isinstance(x, ast.Attribute) and x.attr in ('all_parents', 'parent') for x in ast.walk(fo_.iter)):
+                            climbed = (d_, fo_)
+            if climbed is not None:
+                o.refute(ps.f, c, climbed[0].stmt, f"the recursion over the dependencies is not made on the dependency itself but on `{a0.id}`, an ancestor of "
+                                                   f"it taken from `{src(climbed[1].iter)}`: the whole group is scheduled at that point, so its other members "
+                                                   f"take capacity ahead of tasks that stand before them in the WBS")
+                continue
             o.undecided(ps.f, c, c, "recursive call outside a `for x in <collection>` loop")
             continue
         fo, coll, backwards = lo
